@@ -247,11 +247,17 @@ class Module:
         s.fn_attrs = {}                       # function name -> set of attribute-group tokens / words on its header
         s.typeids = collections.OrderedDict() # typeinfo global name -> small integer (landingpad selectors)
 
+_cname_of = {}; _cname_used = {}
 def cname(n):
-    """LLVM identifier -> C identifier"""
+    """LLVM identifier -> C identifier (two identifiers that would collide, e.g. %"x.base" vs %"x_base", are kept apart by a suffix)"""
     n = n[1:]
     if n.startswith('"'): n = n[1:-1]
-    return re.sub(r'[^A-Za-z0-9_]', '_', n)
+    if n in _cname_of: return _cname_of[n]
+    c = re.sub(r'[^A-Za-z0-9_]', '_', n); k = 1
+    while _cname_used.get(c, n) != n:
+        k += 1; c = re.sub(r'[^A-Za-z0-9_]', '_', n) + '_c%d' % k
+    _cname_used[c] = n; _cname_of[n] = c
+    return c
 
 def parse_module(text):
     M = Module()
@@ -600,7 +606,9 @@ class Emit:
             bs = []
             i = 0
             while i < len(raw):
-                if raw[i] == '\\':
+                if raw[i] == '\\' and raw[i+1:i+2] == '\\':   # LLVM writes a literal backslash as \\
+                    bs.append(0x5c); i += 2
+                elif raw[i] == '\\':
                     bs.append(int(raw[i+1:i+3], 16)); i += 3
                 else:
                     bs.append(ord(raw[i])); i += 1
@@ -1436,6 +1444,34 @@ def main():
             f = M.funcs.pop(name)
             M.decls[name] = (f.ret, [a[0] for a in f.args], f.va)
             summary['cut'].append(name[1:])
+    if '--prune' in args:
+        # keep only what is reachable from the harness entry points (vp_* functions and thread bodies): functions through the
+        # @names in their bodies, globals through their initialisers (vtables keep virtual targets alive)
+        def names_in_value(v, out):
+            if v is None: return
+            if v.kind == 'global': out.add(v.name)
+            for k in ('ops', 'els'):
+                for x in getattr(v, k, []) or []: names_in_value(x, out)
+        keepf = set(); keepg = set()
+        work = [n for n in M.funcs if n[1:].startswith('vp_') or n[1:] in threads]
+        while work:
+            n = work.pop()
+            if n in M.funcs:
+                if n in keepf: continue
+                keepf.add(n); refs = set()
+                for insts in M.funcs[n].blocks.values():
+                    for line in insts:
+                        for m_ in re.finditer(r'@(?:"[^"]+"|[-a-zA-Z$._0-9]+)', line): refs.add(m_.group(0))
+            elif n in M.globals:
+                if n in keepg: continue
+                keepg.add(n); refs = set(); names_in_value(M.globals[n][1], refs)
+            else: continue
+            work.extend(r for r in refs if r not in keepf and r not in keepg)
+        for n in list(M.funcs):
+            if n not in keepf: del M.funcs[n]
+        for n in list(M.globals):
+            if n not in keepg and not n.startswith('@llvm.'): del M.globals[n]
+        summary['pruned_to'] = len(keepf)
     E = Emit(M, {})
     bodies = []; protos = []
     for name, f in M.funcs.items():
